@@ -80,6 +80,14 @@ def _case(draw, tier):
             d["dtype"] = "int64"
     elif fmt in ("mpas", "mpas-dual"):
         mesh = draw(meshgen.voronoi_mesh(6, 20 if big else 12, renumber=False))
+        if fmt == "mpas" and len(mesh["faces"]) >= 6 and draw(st.integers(0, 2)) == 0:
+            # a limited-area (regional) MPAS mesh: some cells removed, so cellsOnEdge / cellsOnVertex / cellsOnCell hold
+            # zeros for the missing neighbours (primal only: the specification is silent on the dual of such a mesh)
+            drop = {k % len(mesh["faces"]) for k in draw(st.lists(st.integers(0, 10_000), min_size=1, max_size=4))}
+            keep = [f for i, f in enumerate(mesh["faces"]) if i not in drop]
+            used = sorted({i for f in keep for i in f})
+            re_ = {o: k for k, o in enumerate(used)}
+            mesh = {"nodes": [mesh["nodes"][o] for o in used], "faces": [[re_[i] for i in f] for f in keep], "family": "voronoi-regional"}
         d = {
             "padding": draw(sampled_from(["zeros", "repeat-last", "garbage"])),
             "radius": draw(sampled_from([1.0, 6371229.0])),
@@ -151,6 +159,8 @@ def classify(case):
         if mixed:
             labs.append("mixed-size")
         labs += [l for l in meshgen.mesh_labels(case["mesh"]) if l in ("partial", "closed", "pole-node", "node-on-antimeridian", "antimeridian-face")]
+        if case["mesh"].get("family") == "voronoi-regional":
+            labs.append("mpas:limited-area-mesh")
     for k in ("start_index", "fill", "dtype", "lon360", "padding", "blocks", "coord", "pad", "driver", "multi", "latlon", "coords"):
         if k in d:
             labs.append(f"{k}={d[k]}")
